@@ -14,7 +14,7 @@ EXPLANATION = (
     "returned count; env_setup converts the joined extra block with its joined size and concatenates parent then extra. "
     "NOT decided (and not claimed): that the produced command line splits back into the original arguments for every string - a "
     "value-level round trip outside this family (the pinned source drops empty arguments: recorded in DESIGN.md as an "
-    "observation, not a check). As built also: the quoting decision is evaluated on the empty string and on strings made of one special character throughout (Z6); the parent environment block is the one obtained in this call and the Windows process code has no writable statics (Z7); shift amounts stay below the operand width (Z8). When the size pass and the write pass cannot be paired (different control skeletons, inputs modified between the passes, an early return the writer does not have) there is no verdict.")
+    "observation, not a check). As built also: the quoting decision is evaluated on the empty string and on strings made of one special character throughout (Z6); the parent environment block is the one obtained in this call and the Windows process code has no writable statics (Z7); shift amounts stay below the operand width (Z8). When the size pass and the write pass cannot be paired (different control skeletons, inputs modified between the passes, an early return the writer does not have) there is no verdict. The builders write their buffers only through the cursor and their entry loops skip nothing (Z9, Z10); the UTF-16 conversion uses code page 65001 (Z5c).")
 ASSUMPTIONS = [
     "clang 14 parser and the fact extractor are correct; the stub windows.h declares the used API with the documented signatures",
     "memset/memcpy write exactly the given length, strcpy/wcscpy write length + 1, MultiByteToWideChar writes at most cchWideChar elements",
